@@ -381,6 +381,13 @@ func (x *X) populate(live bool) error {
 		return err
 	}
 	want["samples_v3"] += n
+	// a stream that stopped writing on the day of base A: its series rows exist on that day only, so the date bound of
+	// the series index sub-selects decides whether a request on the next day sees it
+	n, err = lokiPush(w, []map[string]string{{"a": "b", "c": "d", "gone": "1"}}, 1, logLines[:6], baseA, offsetsMs[:2])
+	if err != nil {
+		return err
+	}
+	want["samples_v3"] += n
 	if err := spansPush(w, baseA); err != nil {
 		return err
 	}
